@@ -164,7 +164,9 @@ def main(tier, replay, t0):
                                                   rp))
                             break
                     # wgpu's own vertex buffer rules on the last pattern
-                    why = vertex_rules(ev["buffers"])
+                    declared = {m["location"] for s_ in sp
+                                for m in spec.structs[s_].members if m.get("location") is not None}
+                    why = vertex_rules(ev["buffers"], declared)
                     if why:
                         f64 = any("64" in a["format"] for b in ev["buffers"]
                                   for a in b["attributes"])
@@ -183,7 +185,9 @@ def main(tier, replay, t0):
                                        "has_dynamic_offset": False, "min_binding_size": None}},
                           "count": None}]], "vertex_inputs": {e.name: vin}})
                     stage_meta[jid] = (c, x, e, last[-1])
-                    if x is c.cfgs[0]:
+                    if x is c.cfgs[0] and not any(
+                            m.get("location", 0) is not None and (m.get("location") or 0) >= 16
+                            for s_ in sp for m in spec.structs[s_].members):
                         dev_jobs.append((jid, c, e, last[-1]))
             if len(samples) < 3 and st:
                 s0 = sorted(st)[0]
@@ -224,7 +228,7 @@ def main(tier, replay, t0):
         "device, not attributable on the real one"], inconclusive=inconclusive)
 
 
-def vertex_rules(buffers):
+def vertex_rules(buffers, declared=()):
     """wgpu-core 24.0.5 create_render_pipeline vertex buffer validation, transcribed, with the
     default limits (max_vertex_buffers 8, stride 2048, attributes 16)"""
     if len(buffers) > 8:
@@ -249,7 +253,9 @@ def vertex_rules(buffers):
                         "%d" % (a["offset"], size, stride))
             if a["offset"] % min(4, size):
                 return ("attribute-offset-alignment", "offset %d" % a["offset"])
-            if a["location"] >= 16:
+            if a["location"] >= 16 and a["location"] not in declared:
+                # (a location the SHADER declares beyond the device limit is the shader's
+                # business, not the tool's)
                 return ("location-limit", "location %d" % a["location"])
             if a["location"] in seen:
                 return ("location-clash", "location %d used twice" % a["location"])
